@@ -168,6 +168,18 @@ pub open spec fn coord_prim(o: Option<f32>) -> Primitive { match o { Some(f) => 
 fn hoist_write_opt_f32<U: Updater>(x: &Option<f32>, update: &mut U) -> (r: Result<Primitive>)
     ensures r == Ok::<Primitive, PdfError>(coord_prim(*x))
 { unimplemented!() }
+// `v.extend([e1, .., en].map(Primitive::Number))` (constructor used as a function value: Verus cannot read it); the element
+// expressions stay verbatim in the array literal, the helper body is that very call
+pub open spec fn numbers_of(xs: Seq<f32>) -> Seq<Primitive> { Seq::new(xs.len(), |i: int| Primitive::Number(xs[i])) }
+#[verifier::external_body]
+fn hoist_extend_numbers<const N: usize>(v: &mut Vec<Primitive>, xs: [f32; N])
+    ensures final(v)@ =~= old(v)@ + numbers_of(xs@)
+{ v.extend(xs.map(Primitive::Number)) }
+// `v.extend([p1, .., pn])` / `v.extend(vec![p1, .., pn])`: n pushes in order
+#[verifier::external_body]
+fn hoist_extend_prims<const N: usize>(v: &mut Vec<Primitive>, xs: [Primitive; N])
+    ensures final(v)@ =~= old(v)@ + xs@
+{ v.extend(xs) }
 
 // =====================================================================================================================
 // ISO 32000-1 12.3.2.2, Table 151 "Destination syntax" (transcribed from the standard):
